@@ -238,6 +238,11 @@ func (p *projSpec) applySpecEdit(op *opSpec) bool {
 				t.DepSpell = append(t.DepSpell, 0)
 			}
 		}
+	case "set-always":
+		// always= is an attribute of the target() call, not of the function's environment
+		if t := p.target(op.Label); t != nil {
+			t.Always = op.N != 0
+		}
 	case "remove-dep":
 		if t := p.target(op.Label); t != nil && len(t.Deps) > 0 {
 			k := op.N % len(t.Deps)
@@ -374,6 +379,13 @@ func genSemanticEdit(r *rand.Rand, p *projSpec, serial int) *opSpec {
 				continue
 			}
 			a, b := r.IntN(len(p.Targets)), r.IntN(len(p.Targets))
+			if r.IntN(5) == 0 {
+				n := 1
+				if p.Targets[a].Always {
+					n = 0
+				}
+				return &opSpec{Op: "set-always", Label: p.Targets[a].label(), N: n}
+			}
 			if r.IntN(2) == 0 {
 				return &opSpec{Op: "add-dep", Label: p.Targets[a].label(), Item: p.Targets[b].label()}
 			}
